@@ -95,6 +95,8 @@ pub fn eval(expr: Node) -> Result<f64, Box<dyn error::Error>> {
             if sub_result >= 0.0 {
                 if (sub_result % 1.0) > 0.0 {
                     Ok(gamma(sub_result + 1.0))
+                } else if sub_result > 170.0 {
+                    Ok(f64::INFINITY)
                 } else {
                     let mut factorial_result = 1.0;
                     for i in 2..=(sub_result as usize) {
@@ -114,7 +116,7 @@ pub fn eval(expr: Node) -> Result<f64, Box<dyn error::Error>> {
             if sub_expr < -min_one.exp() {
                 return Err("The Lambert W function is not defined for {}.".into());
             }
-            let iterations = (4).max((sub_expr.log10() / 3.0).ceil() as i32);
+            let iterations = (4).max((sub_expr.log10() / 3.0).ceil() as i32).min(128);
             let mut w: f64 = 0.0;
             for _ in 0..iterations {
                 let exp_w = w.exp();
@@ -127,11 +129,14 @@ pub fn eval(expr: Node) -> Result<f64, Box<dyn error::Error>> {
             let mut n = eval(*expr1)?;
             let b = eval(*expr2)?;
             let mut x: f64 = 0.0;
-            while n > 1.0 {
+            for _ in 0..64 {
+                if !(n > 1.0) {
+                    return Ok(x);
+                }
                 x += 1.0;
                 n = (n.log10() / b.log10()).floor();
             }
-            Ok(x)
+            Err("The iterated logarithm does not converge for this base".into())
         }
         Abs(sub_expr) => Ok(eval(*sub_expr)?.abs()),
         Floor(sub_expr) => Ok(eval(*sub_expr)?.floor()),
